@@ -235,10 +235,24 @@ def check_slice_ref(res, facts):
                 probs.append("start is not subset.as_ptr() - self.as_ptr(): %s" % fmt_expr(start)[:80])
             if not ok_end:
                 probs.append("end is not start + subset.len(): %s" % fmt_expr(end)[:80])
+    # the only way round the slicing is the documented one: an empty `subset` is a sub-slice of anything.  A shortcut taken on any
+    # other ground (`|| self.is_empty()`) answers out-of-contract calls with a value instead of the documented panic (C13)
+    if len(calls) == 1:
+        from .flow import enumerate_paths, path_relations
+        from .r_c7 import emptiness
+        sb = calls[0][0]
+        for path in enumerate_paths(b, limit=400):
+            if sb in path:
+                continue
+            rels = [r for r in path_relations(b, facts, path) if r]
+            if not emptiness(rels, lambda y: strip_ref(canon(y)) == ("param", 2), 1):
+                probs.append("the path bb%s returns without slicing although `subset` is not known to be empty: a foreign or out-of-range subset gets an answer instead of the panic"
+                             % "->bb".join(str(x) for x in path))
+                break
     if probs:
         res.bad(key, b.loc(), "; ".join(probs))
     else:
-        res.ok(key, b.loc(), "self.slice(off .. off + sub.len()) with off = sub.ptr - self.ptr (containment is asserted by slice itself)", nontrivial=True)
+        res.ok(key, b.loc(), "self.slice(off .. off + sub.len()) with off = sub.ptr - self.ptr (containment is asserted by slice itself); the only shortcut is the empty subset", nontrivial=True)
 
 
 def check_empty_splits(res, facts):
